@@ -20,7 +20,7 @@ if [ "${SKIP_CONFIRM:-}" = "" ]; then
 else
   git apply $D/patch.diff || { echo "SEED $P $D: patch does not apply"; exit 2; }
 fi
-VERIF_EVIDENCE_DIR=$D/eval/evidence VERIF_REPLAY_OUT=$D/eval/replays_raw VERIF_REPO=$W VERIF_SCRATCH=/var/tmp/verif-scratch/eval_$$ /verif/check $P --tier $TIER "$@" > $D/eval/check_$TIER.log 2>&1; RC=$?
+VERIF_EVIDENCE_DIR=$D/eval/evidence VERIF_REPLAY_OUT=$D/eval/replays_raw VERIF_REPO=$W VERIF_SCRATCH=/var/tmp/verif-scratch/eval_$$ ${VERIF_HOME:-/verif}/check $P --tier $TIER "$@" > $D/eval/check_$TIER.log 2>&1; RC=$?
 CLS=$(grep -A1 "^VIOLATION" $D/eval/check_$TIER.log | grep "class:" | sed 's/ *class: //' | tr '\n' ' ')
 echo "SEED $P $(basename $D) tier=$TIER check_exit=$RC classes: $CLS"
 # keep the replay files of the detection next to the seed
